@@ -1358,6 +1358,15 @@ impl St {
                 None => S::a("none"),
             },
             "striphost" => S::tag("ok", vec![S::str(pep508_rs::strip_host(&l[1].string()))]),
+            "splitextras" => match pep508_rs::split_extras(&l[1].string()) {
+                Some((a, b)) => S::tag("ok", vec![S::str(a), S::str(b)]),
+                None => S::a("none"),
+            },
+            // FromStr / Display of MarkerOperator (public; the marker parser recognises `not in` by itself)
+            "opparse" => match pep508_rs::MarkerOperator::from_str(&l[1].string()) {
+                Ok(o) => S::tag("ok", vec![S::str(&format!("{:?}", o)), S::str(&o.to_string())]),
+                Err(_) => S::a("err"),
+            },
             "getenv" => match std::env::var(l[1].string()) {
                 Ok(v) => S::tag("ok", vec![S::str(&v)]),
                 Err(_) => S::a("none"),
